@@ -3,3 +3,17 @@
 Each predicate takes the harness context and returns a bool/SBool *term* over ctx.inputs / ctx.notes --
 no symbolic branching is allowed inside (the engine raises if a predicate forks)."""
 from sx.core import all_of, any_of
+
+
+def c15_root_pop(ctx):
+    """F04: merged child path has a '..' segment and, later, an empty segment ('//')"""
+    m = ctx.notes.get("merged")
+    if m is None:
+        return False
+    n = len(m)
+    alts = []
+    for i in range(n - 2):
+        dd = all_of([m[i:i + 3] == "/..", True if i + 3 == n else m[i + 3] == "/"])
+        for j in range(i + 3, n - 1):
+            alts.append(all_of([dd, m[j:j + 2] == "//"]))
+    return any_of(alts)
